@@ -114,8 +114,32 @@ Definition coordck (m : mstate) (writing : bool) (coords : list Z) : option (mst
   else Some (m, []).
 
 (* ---- hdf_xdr_NCvdata ------------------------------------------------------------------------ *)
+(** The do/while loops that write the leading / trailing fill values in pieces of at most MAX_SIZE bytes.
+    [step] and [more] are the loop body's updates (in source order) and the loop test, regenerated from
+    putget.c.  Result: the sizes of the Hwrite calls, in order; None when the fuel (an a-priori bound on the
+    number of pieces) runs out, which the caller turns into FAIL. *)
+Fixpoint fill_chunks (step : Z -> Z -> Z * Z) (more : Z -> Z -> Z) (fuel : nat) (buf_size chunk_size : Z)
+  : option (list Z) :=
+  match fuel with
+  | O => None
+  | S k =>
+      let (b, c) := step buf_size chunk_size in
+      if truth (more b c) then
+        match fill_chunks step more k b c with Some l => Some (chunk_size :: l) | None => None end
+      else Some [chunk_size]
+  end.
+
+Definition sumZ (l : list Z) : Z := fold_right Z.add 0 l.
+
+(** consecutive Hwrite calls of the given sizes starting at byte position pos *)
+Fixpoint chunk_transfers (pos : Z) (l : list Z) : list transfer :=
+  match l with [] => [] | c :: r => TWrite pos c :: chunk_transfers (pos + c) r end.
+
+Definition chunk_fuel (bytes : Z) : nat := Z.to_nat (bytes / MAX_SIZE + 1).
+
 (** one contiguous transfer of [count] numbers at byte offset [where_]; None = FAIL.
-    Writing: vals are the numbers; reading: the result carries the cells read. *)
+    Writing: vals are the numbers; reading: the result carries the cells read.
+    Note that no seek follows the leading fill: the data go where the fill loop left the position. *)
 Definition xdr_vdata (m : mstate) (writing : bool) (where_ count : Z) (vals : list cell)
   : option (mstate * list transfer * list cell) :=
   let el := elem_length m in
@@ -126,15 +150,27 @@ Definition xdr_vdata (m : mstate) (writing : bool) (where_ count : Z) (vals : li
     Some (m, [], repeat (Val (fill_of m)) (Z.to_nat count))
   else if writing then
     let lead := truth (vdata_lead_fill el where_) && negb (m_nofill m) in
-    let st1 := if lead then repeat (Val (fill_of m)) (Z.to_nat (where_ / esz)) else m_store m in
-    let tr1 := if lead then [TWrite 0 where_] else [] in
-    let st2 := write_cells st1 (where_ / esz) vals in
-    let bytes_left := vdata_bytes_left (var_len m) where_ byte_count in
-    let trail := truth (vdata_trail_fill el bytes_left) && negb (m_nofill m) in
-    let st3 := if trail then write_cells st2 ((where_ + byte_count) / esz)
-                                         (repeat (Val (fill_of m)) (Z.to_nat (bytes_left / esz))) else st2 in
-    let tr3 := if trail then [TWrite (where_ + byte_count) bytes_left] else [] in
-    Some (set_store m st3 (m_numrecs m), tr1 ++ [TWrite where_ byte_count] ++ tr3, [])
+    match (if lead then fill_chunks vdata_lead_loop_step vdata_lead_loop_more (chunk_fuel where_)
+                                    where_ (vdata_lead_loop_init where_)
+           else Some []) with
+    | None => None
+    | Some lchunks =>
+        let pos := if lead then sumZ lchunks else where_ in
+        let st1 := if lead then repeat (Val (fill_of m)) (Z.to_nat (pos / esz)) else m_store m in
+        let st2 := write_cells st1 (pos / esz) vals in
+        let bytes_left := vdata_bytes_left (var_len m) where_ byte_count in
+        let trail := truth (vdata_trail_fill el bytes_left) && negb (m_nofill m) in
+        match (if trail then fill_chunks vdata_trail_loop_step vdata_trail_loop_more (chunk_fuel bytes_left)
+                                         bytes_left (vdata_trail_loop_init bytes_left)
+               else Some []) with
+        | None => None
+        | Some tchunks =>
+            let st3 := if trail then write_cells st2 ((pos + byte_count) / esz)
+                                                 (repeat (Val (fill_of m)) (Z.to_nat (sumZ tchunks / esz))) else st2 in
+            Some (set_store m st3 (m_numrecs m),
+                  chunk_transfers 0 lchunks ++ [TWrite pos byte_count] ++ chunk_transfers (pos + byte_count) tchunks, [])
+        end
+    end
   else
     if el <? where_ + byte_count then None      (* short Hread *)
     else Some (m, [TRead where_ byte_count],
